@@ -58,3 +58,17 @@ func (db *SpanFile) VerifMapRange() (uintptr, int) {
 	}
 	return uintptr(unsafe.Pointer(&db.mmapData[0])), len(db.mmapData)
 }
+
+func VerifEncodeVector(v []float64, quantization int) []byte {
+	return encodeDocument(&Document{Vector: v}, quantization)
+}
+
+func VerifDecodeVector(data []byte, dimensions, quantization int) []float64 {
+	return decodeVector(data, dimensions, quantization)
+}
+
+func VerifQuantize(v float64, bits int) uint64   { return quantize(v, bits) }
+func VerifDequantize(v uint64, bits int) float64 { return dequantize(v, bits) }
+
+func VerifEuclidean(a, b []float64) float64 { return euclideanDistance(a, b) }
+func VerifAngular(a, b []float64) float64   { return angularDistance(a, b) }
